@@ -100,7 +100,7 @@ int vg_skip_cls, vg_skip_ret, vg_skip_bits;  /* read_skip_count: class argument,
 #define VG_T_BITS_OK(c, b) ((b) >= 0 && (b) < ((c) == 0 ? 1 : (c) == 1 ? 16 : 512))
 /* code table: cell vg_tX (L) is what the covering command denotes: symbols 0..2 = zero run (class == symbol, run length
    per class), symbol c >= 3 = one cell holding the length c - 2; vg_tX lies inside the command's span */
-#define VG_T_CMD_OK(L) (vg_t_sym >= 0 && vg_t_start >= 0 && vg_t_start <= vg_tX && vg_tX < vg_t_start + vg_t_span && \
+#define VG_T_CMD_OK(L) (vg_t_sym >= 0 && vg_t_start >= 0 && vg_t_start <= vg_tX && vg_tX - vg_t_start < vg_t_span && \
 	(vg_t_sym <= 2 ? ((L) == 0 && vg_t_cls == vg_t_sym && VG_T_BITS_OK(vg_t_sym, vg_t_bits) && vg_t_span == VG_T_RUN(vg_t_sym, vg_t_bits)) \
 	               : ((int) (L) == vg_t_sym - 2 && vg_t_span == 1 && vg_t_start == vg_tX)))
 
